@@ -1,5 +1,6 @@
 import GixModel.Lemmas.C26
 import GixModel.Lemmas.C26Append
+import GixModel.Lemmas.C26Append2
 /-
 C26 — Config files round-trip losslessly.  PROPERTY THEOREMS ONLY.
 
@@ -111,25 +112,43 @@ example : ∃ f, fileFromBytes [91, 97, 93, 10, 9, 107, 32, 61, 32, 118, 10, 35,
   refine ⟨_, rfl, by decide +kernel, by decide +kernel, by decide +kernel⟩
 
 /-- Print-then-parse, proved part (round 3). A loaded file whose events are lossless (`hl`), whose
-text has no byte that can start a byte-order mark at its head and does not end in a lone CR, and whose
-events END IN A VALUE (so: no comment, whitespace or newline run at the very end of the file — the
-excluded classes: a comment at EOF swallows the CR of an inserted CRLF, a trailing newline run of
-another style merges with the inserted newline), and for which `File::write_to` inserts nothing or
-exactly the missing FINAL newline (`\n` or `\r\n`, whichever the file uses: `detectNewline`): the
-written text parses, and parses back to the same section headers and the same key/value entries.
-Files for which the writer also inserts newlines in the middle (a key on the header line,
-`[a][b]`, several value-less keys on one line) are not covered; see `file_reparse_full`. -/
+text has no byte that can start a byte-order mark at its head and does not end in a lone CR, and for
+which `File::write_to` inserts nothing, or exactly the missing FINAL newline (`\n` or `\r\n`,
+whichever the file uses: `detectNewline`) after events that END IN A VALUE, IN WHITESPACE OR IN A
+SECTION HEADER: the written text parses, and parses back to the same section headers and the same
+key/value entries. Excluded, as explicit predicates: a comment at the very end of the file without
+a newline (it would swallow the CR of an inserted CRLF) and a trailing newline run of the other
+style (it merges with the inserted newline) — with a single newline style the latter means nothing
+is inserted, which is the first disjunct. Files for which the writer also inserts newlines in the
+middle (a key on the header line, `[a][b]`, several value-less keys on one line) are not covered;
+see `file_reparse_full`. -/
 theorem file_reparse_uniform_newlines (bs : Bytes) (f : File) (h : fileFromBytes bs = some f)
     (hl : render f.events = bs) (hbom : noBomHead bs = true) (hcr : bs.getLast? ≠ some 13)
-    (hv : ∃ e, f.events.getLast? = some e ∧ isValueEnd e = true)
-    (hfin : f.normal = true ∨ f.aug = f.events ++ [.newline (detectNewline f)]) :
+    (hfin : f.normal = true ∨
+      (f.aug = f.events ++ [.newline (detectNewline f)] ∧
+        ∃ e, f.events.getLast? = some e ∧ (isValueEnd e = true ∨ evIsWs e = true ∨ isHeaderEv e = true))) :
     ∃ g, fileFromBytes f.write = some g ∧ g.entries = f.entries ∧ g.headers = f.headers := by
-  rcases hfin with hn | ha
+  rcases hfin with hn | ⟨ha, e, hle, hv⟩
   · exact ⟨f, file_reparse_partial bs f h hl hn, rfl, rfl⟩
   · have hw : f.write = bs ++ detectNewline f := by
       rw [File.write_eq, ha, render_snoc_nl, hl]
-    rw [hw]
-    exact fileFromBytes_app (detectNewline_NL f) h hbom hcr hv
+    have hsec : f.sections ≠ [] := by
+      intro hs
+      have := aug_no_sections f hs
+      rw [this] at ha
+      have := congrArg List.length ha
+      simp at this
+    have hlo : LastOk f.events := by
+      refine ⟨e, hle, ?_⟩
+      rcases hv with hv | hv | hv
+      · exact Or.inl (by simp [isGoodEnd, hv])
+      · exact Or.inl (by simp [isGoodEnd, hv])
+      · exact Or.inr hv
+    rw [hw, fileFromBytes_app_eq2 (detectNewline_NL f) h hbom hcr hsec hlo]
+    refine ⟨_, rfl, ?_⟩
+    have := fileOfEvents_snoc_nl (detectNewline f) f.events
+    rw [fileOfEvents_of_parsed h] at this
+    exact this
 
 /-- The appended-newline theorem on its own: for EVERY text the parser accepts (no BOM head, not
 ending in CR, events ending in a value) the text with `\n` or `\r\n` appended is accepted too, and
@@ -149,6 +168,13 @@ example : ∃ f, fileFromBytes [91, 97, 93, 10, 9, 107, 32, 61, 32, 118] = some 
     ∧ f.aug = f.events ++ [.newline (detectNewline f)]
     ∧ f.write = [91, 97, 93, 10, 9, 107, 32, 61, 32, 118, 10] := by
   refine ⟨_, rfl, by decide +kernel, by decide +kernel, ⟨_, rfl, rfl⟩, by decide +kernel, by decide +kernel, by decide +kernel⟩
+
+-- … and a CRLF file ending in a section header: `[a]\r\nk=v\r\n[b]` gets `\r\n` appended
+example : ∃ f, fileFromBytes [91, 97, 93, 13, 10, 107, 61, 118, 13, 10, 91, 98, 93] = some f
+    ∧ (∃ e, f.events.getLast? = some e ∧ isHeaderEv e = true)
+    ∧ f.aug = f.events ++ [.newline (detectNewline f)]
+    ∧ f.write = [91, 97, 93, 13, 10, 107, 61, 118, 13, 10, 91, 98, 93, 13, 10] := by
+  refine ⟨_, rfl, ⟨_, rfl, rfl⟩, by decide +kernel, by decide +kernel⟩
 
 /-- grouping events into front matter and sections loses nothing -/
 theorem file_events_of_parse (evs : List Event) : (fileOfEvents evs).events = evs :=
